@@ -16,9 +16,11 @@ from ..core import rule, AnalysisError
 from ..engine import emit, rx
 from ..engine import pattern as P
 from ..engine.facts import dotted, const, src, walk_func, str_value
+from ..engine.facts import ancestors as facts_ancestors
 from . import skeletons as sk
 from .common import pn, access_paths
 from .c13 import check_skeleton, loop_construct_traces, _T
+from . import c01  # text-stops-cover is registered for C03 there
 
 PRIMARY = ["if", "for", "while", "try", "with"]
 TERNARY = {"if": {"elif", "else"}, "for": {"else"}, "try": {"except"}}
@@ -151,6 +153,19 @@ def loop_pairing(ctx):
     ex = rt.effect("runtime.LoopStack", "_exit")
     ctx.check(en.net() == 1 and en.returns == "top", "_enter.effect", "mako/runtime.py (LoopStack._enter)", "_enter must push one LoopContext and return the new top (got %r)" % en, repr(en))
     ctx.check(ex.net() == -1 and ex.returns == "top", "_exit.effect", "mako/runtime.py (LoopStack._exit)", "_exit must pop one LoopContext and return the new top (the enclosing loop, or the stack itself when empty) (got %r)" % ex, repr(ex))
+    # the stack discipline itself: the top is the last element, a new loop's parent is the top at the time of the push
+    top = db.func("runtime.LoopStack._top")
+    ctx.check(P.has(top, "if self.stack:\n    return self.stack[-1]\nelse:\n    return self") or P.has(top, "if self.stack:\n    return self.stack[-1]\nreturn self") or P.has(top, "return self.stack[-1] if self.stack else self"), "stack.top", db.where(top), "LoopStack._top is not the last element of the stack (the innermost loop), or the stack itself when empty", "top = stack[-1], else the stack")
+    push = db.func("runtime.LoopStack._push")
+    par = [s_ for s_ in walk_func(push) if isinstance(s_, ast.Assign) and isinstance(s_.targets[0], ast.Attribute) and s_.targets[0].attr == "parent"]
+    news = {s_.targets[0].id for s_ in walk_func(push) if isinstance(s_, ast.Assign) and isinstance(s_.targets[0], ast.Name) and isinstance(s_.value, ast.Call) and dotted(s_.value.func) == "LoopContext"}
+    okp = bool(par) and all(src(s_.targets[0].value) in news and src(s_.value) in ("self.stack[-1]", "self._top") and any(isinstance(a_, ast.If) and src(a_.test) == "self.stack" for a_ in facts_ancestors(s_)) for s_ in par)
+    ctx.check(okp, "stack.parent", db.where(par[0]) if par else db.where(push), "the parent of a new LoopContext is `%s`, not the innermost enclosing loop (the top of the stack at the time of the push): from the third nesting level on loop.parent names the wrong loop" % (src(par[0].value) if par else None), "parent = top of the stack when not empty")
+    app = [c_ for c_ in walk_func(push) if isinstance(c_, ast.Call) and isinstance(c_.func, ast.Attribute) and dotted(c_.func.value) == "self.stack" and c_.func.attr in ("append", "insert", "extend")]
+    ctx.check(len(app) == 1 and app[0].func.attr == "append" and src(app[0].args[0]) in news, "stack.push", db.where(push), "the new LoopContext is not appended at the end of the stack", "stack.append(new)")
+    pop = db.func("runtime.LoopStack._pop")
+    pp_ = [c_ for c_ in walk_func(pop) if isinstance(c_, ast.Call) and dotted(c_.func) == "self.stack.pop"]
+    ctx.check(len(pp_) == 1 and not pp_[0].args, "stack.pop", db.where(pop), "_pop does not remove the last element", "stack.pop()")
     starts, ends, pairs = loop_construct_traces(S)
     for t in starts:
         has_set = any(d.endswith("has_loop_context") for d, v, _ in t.sets)
